@@ -21,6 +21,7 @@ import (
 	"sort"
 	"strings"
 	"sync"
+	"sync/atomic"
 	"time"
 
 	"github.com/Basekick-Labs/msgpack/v6"
@@ -43,7 +44,7 @@ type predicted struct {
 }
 
 type scenario struct {
-	Nodes   []int       `json:"nodes"` // node types 1..14 (see Routing.tla)
+	Nodes   []int       `json:"nodes"` // node types 1..21 (see Routing.tla)
 	Ep      string      `json:"ep"`
 	Hdr     string      `json:"hdr"`
 	Allowed []predicted `json:"allowed"`
@@ -72,8 +73,11 @@ type result struct {
 
 var kindSeq = []string{"nr", "sa", "wp", "ws", "wn", "rd", "cp"}
 
-func kindOf(t int) string { return kindSeq[(t-1)/2] }
-func healthy(t int) bool  { return t%2 == 1 }
+// node type t = 3*kind + status; status 0 registry-healthy and reachable, 1 registry-healthy but dead
+// at transport level (connection refused), 2 registry-unhealthy (see Routing.tla)
+func kindOf(t int) string  { return kindSeq[(t-1)/3] }
+func healthy(t int) bool   { return (t-1)%3 != 2 }
+func reachable(t int) bool { return (t-1)%3 != 1 }
 
 func roleOf(k string) cluster.NodeRole {
 	switch k {
@@ -149,6 +153,7 @@ type event struct {
 }
 
 type slot struct {
+	dead  atomic.Bool // current configuration: connections to this node are refused
 	idx   int
 	id    string
 	addr  string
@@ -289,6 +294,9 @@ func run(scenPath string, repeat int, res *result) error {
 			if !ok {
 				return nil, fmt.Errorf("verif: unknown node address %s", addr)
 			}
+			if s.dead.Load() {
+				return nil, &net.OpError{Op: "dial", Net: network, Err: fmt.Errorf("connect: connection refused (verif: node is down)")}
+			}
 			return s.ln.Dial()
 		},
 		MaxIdleConnsPerHost: 8,
@@ -304,7 +312,7 @@ func run(scenPath string, repeat int, res *result) error {
 	slots[1].setRouter(nil)
 	for _, ep := range []string{"msgpack", "lp_v1", "lp_v2", "lp_simple", "tle", "query", "query_msgpack", "estimate", "arrow"} {
 		rq, _ := mkRequest(ep)
-		st, body, err := doArrowSafe(client, slots[1], rq, ep, "", res)
+		st, body, err := doArrowSafe(client, slots[1], rq, ep, "", res, true)
 		if err != nil {
 			return fmt.Errorf("probe %s: %w", ep, err)
 		}
@@ -368,7 +376,7 @@ func run(scenPath string, repeat int, res *result) error {
 			// seen by the test client as an error, or by a forwarding router as 502 after its own
 			// retry -- is never judged: the request is repeated and, if it keeps failing, counted
 			// as unjudged.
-			st, body, err := doArrowSafe(client, slots[1], rq, sc.Ep, hdrVal, res)
+			st, body, err := doArrowSafe(client, slots[1], rq, sc.Ep, hdrVal, res, !anyDown(sc.Nodes))
 			if err != nil && sc.Ep == "arrow" {
 				takeEvents()
 				res.Unjudged++
@@ -411,6 +419,12 @@ func run(scenPath string, repeat int, res *result) error {
 				"status": st, "chain": chain, "processed_by": procs}
 			if len(res.Samples) < 6 && len(chain) > 1 {
 				res.Samples = append(res.Samples, obs)
+			}
+			if sc.Ep == "arrow" && st == 502 && len(chain) > 1 {
+				// the peer received the forwarded Arrow request, the router could not read its answer:
+				// the corrupted-status-line artefact on the inter-node leg, not a routing decision
+				res.Unjudged++
+				continue
 			}
 			if len(chain) == 0 || chain[0].Node != 1 {
 				return fmt.Errorf("entry node did not record the request: %v", obs)
@@ -486,6 +500,8 @@ func run(scenPath string, repeat int, res *result) error {
 				o.Outcome = "loop508"
 			case st == 503:
 				o.Outcome = "none503"
+			case st == 502:
+				o.Outcome = "fail502"
 			}
 			res.PerOutcome[fmt.Sprintf("%s/hops%d", o.Outcome, hops)]++
 			match := false
@@ -506,14 +522,15 @@ func run(scenPath string, repeat int, res *result) error {
 }
 
 // doArrowSafe is do() plus the repeat rule for the Arrow endpoint's transport failures.
-func doArrowSafe(client *http.Client, entry *slot, rq *reqSpec, ep, marker string, res *result) (int, []byte, error) {
+// retry502: a 502 can only be the corrupted-status-line artefact (no node of the configuration is down).
+func doArrowSafe(client *http.Client, entry *slot, rq *reqSpec, ep, marker string, res *result, retry502 bool) (int, []byte, error) {
 	st, body, err := do(client, entry, rq, marker)
-	for try := 0; ep == "arrow" && (err != nil || st == 502) && try < 8; try++ {
+	for try := 0; ep == "arrow" && (err != nil || (retry502 && st == 502)) && try < 8; try++ {
 		takeEvents()
 		res.Retries++
 		st, body, err = do(client, entry, rq, marker)
 	}
-	if ep == "arrow" && err == nil && st == 502 {
+	if ep == "arrow" && err == nil && retry502 && st == 502 {
 		err = fmt.Errorf("arrow request kept failing at transport level (502)")
 	}
 	return st, body, err
@@ -532,16 +549,28 @@ func collapseRetries(chain []event) []event {
 	return out
 }
 
+// hasTarget: a registry-healthy capable peer exists and none of the registry-healthy capable peers
+// is down (with a down candidate the router may legitimately pick it and answer 502).
 func hasTarget(nodes []int, isWrite bool) bool {
-	for _, t := range nodes {
+	found := false
+	for _, t := range nodes[1:] {
 		k := kindOf(t)
 		if !healthy(t) {
 			continue
 		}
-		if k == "wp" || k == "ws" || k == "wn" {
-			return true
+		if k == "wp" || k == "ws" || k == "wn" || (!isWrite && k == "rd") {
+			if !reachable(t) {
+				return false
+			}
+			found = true
 		}
-		if !isWrite && k == "rd" {
+	}
+	return found
+}
+
+func anyDown(nodes []int) bool {
+	for _, t := range nodes {
+		if !reachable(t) {
 			return true
 		}
 	}
@@ -554,6 +583,8 @@ func describe(nodes []int) []string {
 		h := "healthy"
 		if !healthy(t) {
 			h = "unhealthy"
+		} else if !reachable(t) {
+			h = "healthy-but-down"
 		}
 		out[i] = fmt.Sprintf("n%d:%s:%s", i+1, kindOf(t), h)
 	}
@@ -596,6 +627,11 @@ func configure(slots []*slot, nodes []int, tr *http.Transport, logger zerolog.Lo
 		}
 		return nd
 	}
+	// pooled keep-alive connections of the previous configuration must not reach a node that is down now
+	tr.CloseIdleConnections()
+	for i := 1; i < len(slots); i++ {
+		slots[i].dead.Store(i <= len(nodes) && !reachable(nodes[i-1]))
+	}
 	for i := 1; i < len(slots); i++ {
 		if i > len(nodes) || kindOf(nodes[i-1]) == "nr" {
 			slots[i].setRouter(nil)
@@ -608,7 +644,7 @@ func configure(slots []*slot, nodes []int, tr *http.Transport, logger zerolog.Lo
 				_ = reg.Register(mk(j))
 			}
 		}
-		r := cluster.NewRouter(&cluster.RouterConfig{Timeout: 30 * time.Second, Retries: 1, Registry: reg,
+		r := cluster.NewRouter(&cluster.RouterConfig{Timeout: 30 * time.Second, Retries: 2, Registry: reg,
 			LocalNode: local, Logger: logger, Transport: tr})
 		slots[i].setRouter(r)
 	}
